@@ -32,7 +32,8 @@ LEVEL_TEXT = 'Every subset (size <= 2 quick / 3 thorough) of corrupted transmiss
 RULE = ("jobs produced by GCodeBuilder (moves, arcs, comments incl. non-ASCII, blank and comment-only lines, "
         "2-60 lines); corrupted transmissions by index: EVERY subset of size <= k of the transmission indices "
         "of short jobs (k=2 quick, 3 thorough) plus random subsets, bursts and repeated corruption of "
-        "resent lines on longer jobs; firmware latency classes {0, 0-3 ms, 10-30 ms, 100-300 ms}; "
+        "resent lines on longer jobs; a quarter of the random jobs are handed over in two parts (head to "
+        "startprint(), tail appended with printcore.send() while the print is ongoing); firmware latency classes {0, 0-3 ms, 10-30 ms, 100-300 ms}; "
         "switch interval 1 us and sys.monitoring yield injection in the printcore threads; distinct = "
         "(fault-pattern class, latency class, wire interleaving signature)")
 ASSUMPTIONS = [
@@ -48,6 +49,7 @@ TIERS = {
 FLOORS = {
     "quick": {"counts": {"jobs_streamed": 480, "transmissions_checked": 3000, "resends_requested": 300,
                          "checksums_verified": 3000, "jobs_with_faults": 300, "enumerated_fault_patterns": 87,
+                         "jobs_extended_while_printing": 40,
                          "yields_injected": 50000, "context_switch_observations": 5000}, "keys": 60,
               "max_inconclusive_frac": 0.2},
     "thorough": {"counts": {"jobs_streamed": 4000, "transmissions_checked": 60000}, "keys": 200,
@@ -68,8 +70,13 @@ class Faulty(Behaviour):
         # request spellings of the firmwares printcore supports (Marlin, Repetier, Teacup)
         self.resend_format = rng.choice([b"Resend: %d", b"Resend: %d", b"Resend:%d", b"rs %d",
                                          b"rs N%d Expected checksum 67", b"Resend: N:%d"])
+        # growing jobs: the acknowledgment of the first job line is withheld until the harness has
+        # appended the rest of the job through printcore.send() (so the print is certainly ongoing)
+        self.hold = None
 
     def latency(self, dev, index, line):
+        if index == 0 and self.hold is not None:
+            self.hold.wait(5.0)
         return self.rng.uniform(self.lo, self.hi)
 
     def resend_latency(self, dev):
@@ -259,13 +266,21 @@ def expected_commands(job):
     return out
 
 
-def stream_job(ctx, col, case, tag, rng, job, faults, lat, perturb=True):
+def stream_job(ctx, col, case, tag, rng, job, faults, lat, perturb=True, grow=0):
+    """grow > 0: only the head of the job is handed to startprint(); the last `grow` lines are appended
+    with printcore.send() while the print is ongoing (the way gscrib's own writer feeds the sender)."""
     beh = Faulty(rng, faults, lat)
+    head, tail = (job[:-grow], job[-grow:]) if grow else (job, [])
+    if tail and not expected_commands(head):
+        head, tail = job, []
+    if tail:
+        beh.hold = threading.Event()
     dev = MarlinPTY(beh).start()
     p = MonitoredCore()
     p.loud = False
     want = expected_commands(job)
-    info = {"job_lines": len(job), "commands": len(want), "corrupt_tx": sorted(faults), "latency": lat, "tag": tag,
+    info = {"job_lines": len(job), "appended_with_send": len(tail), "commands": len(want), "corrupt_tx": sorted(faults),
+            "latency": lat, "tag": tag,
             "resend_format": beh.resend_format.decode()}
     verdict = None
     # random yields everywhere + 0-3 delay points inside the two protocol-critical functions
@@ -283,10 +298,23 @@ def stream_job(ctx, col, case, tag, rng, job, faults, lat, perturb=True):
             if not p.online:
                 col.inconclusive_case(f"{tag}: printer never came online")
                 return None
-            gc = gcoder.GCode(job)
+            gc = gcoder.GCode(head)
             if not p.startprint(gc):
                 col.inconclusive_case(f"{tag}: startprint refused")
                 return None
+            if tail:
+                appended_while_printing = 0
+                for line in tail:
+                    if p.printing:
+                        appended_while_printing += 1
+                    p.send(line)
+                beh.hold.set()
+                if appended_while_printing != len(tail):
+                    # the print ended although the first acknowledgment was withheld: not the scenario
+                    col.inconclusive_case(f"{tag}: print ended before the job could be extended")
+                    return None
+                col.count("jobs_extended_while_printing")
+                col.count("lines_appended_while_printing", len(tail))
             quiet = max(0.3, 4 * LAT[lat][1])
             budget = 20 + len(job) * (LAT[lat][1] * 6 + 0.05)
             t0 = time.monotonic()
@@ -310,6 +338,8 @@ def stream_job(ctx, col, case, tag, rng, job, faults, lat, perturb=True):
                         break
             verdict = "finished" if finished else ("stalled" if stalled else "watchdog")
     finally:
+        if beh.hold is not None:
+            beh.hold.set()
         # disconnect() joins the library's threads without a timeout: do it on the side, and if it does
         # not come back close the device under it (blocked reads/writes then fail and the threads end)
         def _disconnect():
@@ -364,7 +394,7 @@ def analyse(ctx, col, case, info, dev, beh, want, verdict):
     sig = "".join({"rx": "S", "tx-resend": "R", "ack": "A", "tx-ok-after-resend": "a"}.get(k, "")
                   for _, k, _ in dev.events)
     fault_class = fault_pattern_class(info["corrupt_tx"], len(want))
-    col.key(fault_class, info["latency"], compress(sig))
+    col.key(fault_class, info["latency"], compress(sig), "extended-by-send" if info.get("appended_with_send") else "whole")
     witness = {**{k: v for k, v in info.items() if k != "_mon"}, "verdict": verdict, "resend_requests": dev.resend_requests,
                "corrupted": beh.corrupted[:6],
                "transmissions": [r.decode("latin1") for r in numbered[:40]],
@@ -559,7 +589,9 @@ def run_shard(ctx, col):
             else:
                 faults = tuple(sorted(rng.sample(range(1, ncmd + 6), min(ncmd, rng.randint(3, 6)))))
             lat = rng.choice(["0", "0-3ms", "10-30ms"] + (["100-300ms"] if nlines <= 5 else []))
-            stream_job(ctx, col, case, f"random:{j}", rng, job, faults, lat, perturb=rng.random() < 0.8)
+            grow = rng.randint(1, max(1, len(job) - 1)) if (len(job) >= 2 and rng.random() < 0.25) else 0
+            stream_job(ctx, col, case, f"random:{j}" + (f":grow{grow}" if grow else ""), rng, job, faults, lat,
+                       perturb=rng.random() < 0.8, grow=grow)
         if case == 0:
             col.sample({"job": ["; enumerated job"] + [f"G1 X{10 * (i + 1)} Y{5 * i} F1200" for i in range(P["enum_lines"])],
                         "fault_space": "transmission indices (0 = M110 reset, then job lines and their resends)"})
